@@ -44,7 +44,7 @@ Fixpoint ploop (l : list seg) (k : nat) (sidx tidx : N) (buf : str) {struct l}
           if negb (is_empty (raw c)) && is_point cp then ploop l' k' sidx tidx (buf ++ raw c)
           else
             let fp := first_leaf_pos c in
-            let gap := if negb (t0 cp =? tidx) || negb (is_empty buf)
+            let gap := if (tidx <? t0 cp) || negb (is_empty buf)
                        then [mkPatch sidx (s0 fp) buf] else [] in
             gap ++ f c ++ ploop l' k' (s1 cp) (t1 cp) []
       | O => if negb (t1 p =? tidx) || negb (is_empty buf) then [mkPatch sidx (s1 p) buf] else []
@@ -79,7 +79,7 @@ Fixpoint dloop (l : list seg) (k : nat) (sidx tidx : N) (buf : str) {struct l}
           if negb (is_empty (raw c)) && is_point cp then dloop l' k' sidx tidx (buf ++ raw c)
           else if tidx <=? t0 cp then
             let fp := first_leaf_pos c in
-            let gap := if negb (t0 cp =? tidx) || negb (is_empty buf)
+            let gap := if (tidx <? t0 cp) || negb (is_empty buf)
                        then [mkD sidx (s0 fp) tidx (t0 cp) buf] else [] in
             match f c, dloop l' k' (s1 cp) (t1 cp) [] with
             | Some dc, Some dl => Some (gap ++ dc ++ dl)
@@ -122,7 +122,7 @@ Proof.
         destruct (dpatches tf c) as [dc|] eqn:Ec; [|discriminate].
         destruct (dloop (dpatches tf) p l k (s1 (seg_pos c)) (t1 (seg_pos c)) []) as [dl'|] eqn:El; [|discriminate].
         injection H as <-. rewrite !map_app. rewrite (Hc _ eq_refl). rewrite (IH HF' _ _ _ _ _ El).
-        destruct (negb (t0 (seg_pos c) =? tidx) || negb (is_empty buf)); reflexivity.
+        destruct ((tidx <? t0 (seg_pos c)) || negb (is_empty buf)); reflexivity.
 Qed.
 
 Theorem dpatches_erase : forall tf s ds, dpatches tf s = Some ds -> map spatch ds = iter_patches tf s.
@@ -230,11 +230,12 @@ Proof.
         assert (CL : tch (t0 (seg_pos c)) (t1 p) (dc ++ dl')) by (eapply tch_app; eauto).
         assert (SL : splice_r (tpl tf) (t0 (seg_pos c)) (t1 p) (map tpatch (dc ++ dl')) = raw c ++ flat_map raw l).
         { rewrite (splice_r_app _ _ _ _ _ _ C1 L1). rewrite C2, L2. reflexivity. }
-        destruct (negb (t0 (seg_pos c) =? tidx) || negb (is_empty buf)) eqn:G.
+        destruct ((tidx <? t0 (seg_pos c)) || negb (is_empty buf)) eqn:G.
         -- cbn [app tch map splice_r tpatch du dv dr p_s p_e p_raw]. split; [repeat split; try lia; exact CL|].
            rewrite sub_nil by lia. cbn [app]. fold (map tpatch (dc ++ dl')). rewrite SL. reflexivity.
-        -- apply orb_false_iff in G. destruct G as [G1 G2]. apply negb_false_iff in G1, G2.
-           apply N.eqb_eq in G1. destruct buf; [|discriminate]. cbn [app]. rewrite <- G1. split; assumption.
+        -- apply orb_false_iff in G. destruct G as [G1 G2]. apply negb_false_iff in G2.
+           apply N.ltb_ge in G1. assert (G3 : t0 (seg_pos c) = tidx) by lia.
+           destruct buf; [|discriminate]. cbn [app]. rewrite <- G3. split; assumption.
 Qed.
 
 Theorem dpatches_T : forall tf s, T_ok tf s.
